@@ -115,7 +115,7 @@ def project(df):
     return rows, True
 
 
-def do_op(cm, m, sv, op, st_rows, workdir, variant):
+def do_op(cm, m, sv, op, st_rows, workdir, variant, shared=None):
     """Returns (new live Motl, the event record without post)."""
     from scipy.spatial.transform import Rotation
     name = op["name"]
@@ -135,7 +135,13 @@ def do_op(cm, m, sv, op, st_rows, workdir, variant):
         if op["kind"] == "none":
             m.flip_handedness()
         else:
-            m.flip_handedness(np.array([[t, 100, 120, DIMZ[t]] for t in sorted(DIMZ)], dtype=float))
+            if shared is not None and "dims" not in shared:
+                import pandas as pd
+                shared["dims"] = pd.DataFrame(np.array([[t, 100, 120, DIMZ[t]] for t in sorted(DIMZ)], dtype=float),
+                                              columns=["tomo_id", "x", "y", "z"])
+            # the same dimension table object is handed over at every flip of a history
+            m.flip_handedness(shared["dims"] if shared is not None else
+                              np.array([[t, 100, 120, DIMZ[t]] for t in sorted(DIMZ)], dtype=float))
         ev["kind"] = op["kind"]
     elif name in ("subset", "remove"):
         present = sorted({r[op["f"]] for r in st_rows})
@@ -179,8 +185,9 @@ def do_op(cm, m, sv, op, st_rows, workdir, variant):
 def execute(ctx, case, scope):
     from cryocat import cryomotl as cm
     rng = random.Random(case["seed"])
-    m = cm.Motl(rows_to_df(case["a"], rng))
-    sv = cm.Motl(rows_to_df(case["b"], rng))
+    m = cm.Motl(motlutil.vary_index(rows_to_df(case["a"], rng), case["seed"]))
+    sv = cm.Motl(motlutil.vary_index(rows_to_df(case["b"], rng), case["seed"] // 4))
+    shared = {}
     st, _ = project(m.df)
     b_rows, _ = project(sv.df)
     if st != case["a"] or b_rows != case["b"]:
@@ -190,7 +197,7 @@ def execute(ctx, case, scope):
         if len(st) == 0 and op["name"] not in ("merge_renumber",):
             break                                    # an emptied list ends the history
         own = (op["name"] in POSE_OPS) == (scope == "pose")
-        res, err = core.call_guarded(do_op, cm, m, sv, op, st, ctx.workdir, case["seed"] + i)
+        res, err = core.call_guarded(do_op, cm, m, sv, op, st, ctx.workdir, case["seed"] + i, shared)
         if err is not None:
             if own:
                 ctx.fail("call_raises", "step %d %s: %s" % (i + 1, op, err), case, {"op": op["name"], "layer": "mixed"})
